@@ -138,6 +138,11 @@ impl Serialize for Time {
 
 impl Serialize for DateTime {
     fn serialize<S: Serializer>(&self, serializer: S) -> Result<S::Ok, S::Error> {
+        if !self.has_local_time() {
+            return Err(serde::ser::Error::custom(
+                "DateTime local time is out of range",
+            ));
+        }
         let mut map = serializer.serialize_map(Some(2))?;
         map.serialize_entry("_kind", "dateTime")?;
         map.serialize_entry("val", &self.to_rfc3339_opts(SecondsFormat::AutoSi, true))?;
